@@ -11,7 +11,7 @@
 using namespace hmac_cpp;
 
 // ---- interposed clock (as the repository's own tests do): std::time resolves to this definition ----
-static long long g_now = 0, g_step = 0; static int g_errno = 0; static long g_time_calls = 0;
+static thread_local long long g_now = 0, g_step = 0; static thread_local int g_errno = 0; static thread_local long g_time_calls = 0;   // per thread: the concurrent driver runs cases on 16 threads
 extern "C" time_t time(time_t* t) {
     long long v = g_now + g_step * g_time_calls; ++g_time_calls;
     if (g_errno) errno = g_errno;
@@ -126,7 +126,7 @@ static std::string hmachist(TypeHash ty, const std::vector<std::string>& ops) {
 
 // decoders: the same output objects are reused across all cases of a run (they keep what the previous decode left in them),
 // so "left empty on failure" is checked against real prior contents
-static std::vector<uint8_t> g_dec_vec; static secure_buffer<uint8_t> g_dec_sb;
+static thread_local std::vector<uint8_t> g_dec_vec; static thread_local secure_buffer<uint8_t> g_dec_sb;
 template <class FV, class FS> static std::string dec_forms(FV fv, FS fs) {
     Forms f;
     { bool ok = fv(g_dec_vec); f.push_back(std::make_pair("vector", ok ? "some " + hx(g_dec_vec) : (g_dec_vec.empty() ? std::string("none") : std::string("none-but-output-not-empty")))); }
@@ -391,6 +391,7 @@ static std::string run(const std::vector<std::string>& a) {
     throw std::logic_error("unknown op " + op);
 }
 
+#ifndef DRV_NO_MAIN
 int main(int argc, char** argv) {
     if (argc < 2) { fprintf(stderr, "usage: drv_pure <cases>\n"); return 2; }
     if (std::string(argv[1]) == "--platform") {
@@ -407,3 +408,4 @@ int main(int argc, char** argv) {
     }
     return 0;
 }
+#endif
